@@ -19,7 +19,8 @@ U0 == <<
   L(<<I(1), Ints(<<2, 3>>)>>), L(<<Ints(<<1>>), Ints(<<2, 3>>)>>),
   L(<<S(<<97, 98>>), S(<<99, 100>>)>>), L(<<I(1), S(<<97, 98>>), Y(<<120>>)>>),
   L(<<Y(<<120>>), I(0), I(1)>>), L(<<S(<<97, 98>>), I(1), I(0)>>), Ints(<<-1, 2>>), Ints(<<1, 2, 3, 4, 5, 6>>),
-  L(<<L(<<S(<<97>>), S(<<98>>)>>), L(<<S(<<99>>), S(<<100>>)>>)>>), L(<<S(<<122, 122>>), I(1), I(1)>>)     \* [["a" "b"] ["c" "d"]], ["zz" 1 1]
+  L(<<L(<<S(<<97>>), S(<<98>>)>>), L(<<S(<<99>>), S(<<100>>)>>)>>), L(<<S(<<122, 122>>), I(1), I(1)>>),    \* [["a" "b"] ["c" "d"]], ["zz" 1 1]
+  L(<<Ints(<<1, 1>>), Ints(<<2, 2>>), Ints(<<3, 3>>)>>)     \* [[1 1] [2 2] [3 3]]: equal to the one-column [[1] [2] [3]] only under broadcasting
 >>
 
 U1 == U0 \o <<
